@@ -1137,8 +1137,9 @@ class WcParse(Generic[AnyStr]):
                 if self.pathname:
                     raise StopIteration
                 value = c
-            elif c in SET_OPERATORS:
-                # Escape &, |, and ~ to avoid &&, ||, and ~~
+            elif c in SET_OPERATORS or c == '#':
+                # Escape &, |, and ~ to avoid &&, ||, and ~~. Escape # so that a literal `(?#)` in a sequence cannot be
+                # mistaken for the internal capture group marker.
                 value = '\\' + c
             else:
                 # Anything else
